@@ -83,6 +83,12 @@ def generate(rng, tier):
 
 
 def describe(case):
+    if case.get("large"):
+        return case
+    return _describe(case)
+
+
+def _describe(case):
     d = dict(case)
     if "decisions" in d:
         d["decisions"] = d["decisions"][:40]
@@ -361,7 +367,76 @@ def get_basis(case, dg, kw):
     return nuv, bad
 
 
+def execute_large(case, stats):
+    """Resolutions the simulator cannot reach (the statement says: all resolutions): the shipped front-end and the compiled
+    kernel with one numba thread (deterministic) on a few hundred cells and ~10^5 pixels, against a vectorised
+    point-in-cell reference.  Pixels whose sample point is within 1e-9 of a cell face are not judged."""
+    import numba
+    import osyris
+
+    lg = case["large"]
+    m = lg["mesh"]
+    viol = []
+    out = {"violations": viol, "nontrivial": True, "signature": "large:" + core.digest(lg)[:12]}
+    cells = build_mesh(m)
+    dg = mesh_datagroup(m, cells)
+    vals = cell_values(m, cells)["density"]
+    kw = {"dx": lg["dx"] * osyris.units(m["unit"]), "origin": osyris.Vector(*lg["origin"], unit=m["unit"]), "direction": direction_arg(lg["direction"]),
+          "resolution": {"x": lg["nx"], "y": lg["ny"]}, "plot": False}
+    old = numba.get_num_threads()
+    numba.set_num_threads(1)
+    try:
+        with np.errstate(all="ignore"):
+            plot = osyris.map(dg.layer("density"), **kw)
+    except Exception as e:
+        viol.append({"class": "frontend-exception", "clause": "large", "key": {"class": "frontend-exception", "clause": "large"}, "detail": {"error": f"{type(e).__name__}: {e}"[:300]}})
+        return out
+    finally:
+        numba.set_num_threads(old)
+    nuv, bad = get_basis({"mesh": m, "direction": lg["direction"]}, dg, kw)
+    if bad is not None:
+        viol.append({"class": "basis", "clause": bad, "key": {"class": "basis", "clause": bad}, "detail": {}})
+        return out
+    n_, u, v = nuv
+    xs, ys = np.asarray(plot.x, dtype=float), np.asarray(plot.y, dtype=float)
+    data = plot.layers[0]["data"]
+    got, mask = np.ma.getdata(data), np.ma.getmaskarray(data)
+    if got.shape != (lg["ny"], lg["nx"]) or xs.shape != (lg["nx"],) or ys.shape != (lg["ny"],):
+        viol.append({"class": "structure", "clause": "shape", "key": {"class": "structure", "clause": "shape"}, "detail": {"shape": list(got.shape), "want": [lg["ny"], lg["nx"]]}})
+        return out
+    X, Y = np.meshgrid(xs, ys)
+    P = np.asarray(lg["origin"], dtype=float)[None, None, :] + X[..., None] * u[None, None, :] + Y[..., None] * v[None, None, :]
+    want = np.full(X.shape, np.nan)
+    n_in = np.zeros(X.shape, dtype=np.int32)
+    n_touch = np.zeros(X.shape, dtype=np.int32)
+    for c, val in zip(cells, vals):
+        d = np.abs(P - np.asarray(c["pos"], dtype=float)[None, None, :])
+        h = 0.5 * c["dx"]
+        eps = 1e-9 * max(1.0, m["scale"])
+        tch = np.all(d <= h + eps, axis=2)
+        ins = np.all(d < h - eps, axis=2)
+        n_touch += tch
+        n_in += ins
+        want[ins] = val
+    stats.inc("probe.large_map_compiled_run")
+    stats.inc("steps.pixels_judged_large", int(X.size))
+    clear = (n_touch == 1) & (n_in == 1)
+    empty = n_touch == 0
+    bad_masked = clear & mask
+    bad_val = clear & ~mask & ~np.isclose(got, want, rtol=1e-10, atol=1e-12)
+    bad_empty = empty & ~mask
+    for name, b in (("wrongly-masked", bad_masked), ("wrong-value", bad_val), ("value-where-no-cell", bad_empty)):
+        if np.any(b):
+            j, i = [int(q) for q in np.argwhere(b)[0]]
+            viol.append({"class": "pixel", "clause": name + "@large", "key": {"class": "pixel", "clause": name + "@large"},
+                         "detail": {"pixel": [j, i], "n_pixels_wrong": int(b.sum()), "got": None if mask[j, i] else float(got[j, i]), "want": None if np.isnan(want[j, i]) else float(want[j, i])}})
+            break
+    return out
+
+
 def execute(case, stats):
+    if case.get("large"):
+        return execute_large(case, stats)
     viol = []
     res = {"violations": viol, "nontrivial": False}
 
@@ -478,6 +553,8 @@ def execute(case, stats):
 
 
 def measure(case):
+    if case.get("large"):
+        return (case["large"]["nx"] * case["large"]["ny"],)
     m, v = case["mesh"], case["view"]
     dec = case.get("decisions")
     sw = sum(1 for a, b in zip(dec, dec[1:]) if a != b) if dec else 10 ** 6
@@ -489,7 +566,7 @@ def measure(case):
 
 
 def canonical(case, viol):
-    if "decisions" in case or case["sched"]["T"] == 1:
+    if case.get("large") or "decisions" in case or case["sched"]["T"] == 1:
         return case
     r = execute(case, core.Stats())
     c = dict(case)
@@ -498,6 +575,8 @@ def canonical(case, viol):
 
 
 def reductions(case, viol):
+    if case.get("large"):
+        return
     m, v = case["mesh"], case["view"]
     if case.get("prior"):
         yield dict(case, prior=False)
@@ -556,4 +635,20 @@ def finalize(tier, base_seed, stats, viols):
         if not same_results(sim_out, real_out):
             raise HarnessError(f"model divergence: simulated T=1 != compiled T=1 for anchor case {r}")
         checked += 1
-    return {"fidelity_anchor": {"workloads_compiled_T1_equal_simulated_T1": checked, "attempted": nanchor}}
+    # ---- resolutions beyond the simulator: shipped front-end + compiled kernel, one thread, vectorised reference
+    import sys
+
+    nlarge = 0
+    for k in range(2 if tier == "quick" else 8):
+        rng = random.Random(core.H(base_seed, PROPERTY, "large", k))
+        m = {"wseed": rng.getrandbits(30), "ndim": 3, "levelmin": 2, "levelmax": 4, "refine_p": 0.35, "maxcells": rng.choice([400, 900]), "holes": 0.0, "hole_box": False,
+             "unit": "cm", "scale": 1.0}
+        dirs = [{"kind": "str", "s": rng.choice(["x", "y", "z", "zyx", "yzx"])}, {"kind": "vec", "v": [round(rng.uniform(-1, 1), 3) or 0.3 for _ in range(3)]}]
+        case = {"large": {"mesh": m, "dx": round(rng.uniform(0.3, 1.1), 4), "origin": [round(rng.uniform(0.3, 0.7), 5) + 1.37e-6 for _ in range(3)],
+                          "direction": dirs[k % 2], "nx": rng.choice([384, 512, 640]), "ny": rng.choice([200, 300])}, "run": -1 - k, "seed": 0}
+        res = core.safe_execute(sys.modules[__name__], case, stats)
+        nlarge += 1
+        for v_ in res["violations"]:
+            viols.append({"case": case, "violation": v_})
+    return {"fidelity_anchor": {"workloads_compiled_T1_equal_simulated_T1": checked, "attempted": nanchor},
+            "large_maps": {"runs": nlarge, "how": "shipped front-end, compiled kernel, 1 numba thread, vectorised point-in-cell reference, ~10^5 pixels each"}}
